@@ -415,7 +415,6 @@ def finding_key(case, impl, lean):
             m = _send_map(case, maps)
             if m is None:
                 return None
-            vals = dict((a, b) for a, b in case["ava"]).get(name)
             if _case_collision(case, m, name):
                 k = KEY_CASE
             elif case["op"] == "roundtrip" and kind in ("attribute-lost", "value-lost") and \
